@@ -335,6 +335,15 @@ func (p *Prog) Method(pkgPath, typ, name string) *types.Func {
 		}
 		return f
 	}
+	// a renamed method (or one that became a plain function) answers to its frozen name
+	for _, pp := range []string{pkgPath, modPath + "/" + pkgPath} {
+		if fi := p.funcs[pp+"."+typ+"."+name]; fi != nil && fi.Now != "" {
+			if p.collect != nil {
+				p.collect[fi.Obj] = true
+			}
+			return fi.Obj
+		}
+	}
 	return nil
 }
 
